@@ -62,7 +62,8 @@ def spawn(args, out, timeout, env, py=None, extra_env=None):
     e = dict(env)
     if extra_env:
         e.update(extra_env)
-    return subprocess.Popen([py or PY, "-m", "vf.worker"] + args + ["--out", out], cwd=VERIF, env=e, stdout=subprocess.PIPE, stderr=subprocess.STDOUT), time.time() + timeout
+    pyl = [PY] if py is None else (list(py) if isinstance(py, (list, tuple)) else [py])
+    return subprocess.Popen(pyl + ["-m", "vf.worker"] + args + ["--out", out], cwd=VERIF, env=e, stdout=subprocess.PIPE, stderr=subprocess.STDOUT), time.time() + timeout
 
 
 def run_workers(jobs, env, timeout, maxpar=16):
